@@ -28,6 +28,33 @@ def _k4(cex):
     return cex.get("kind") == "search_not_least" and cex.get("limit") == 0 and cex.get("expected") == "ok 0"
 
 
+def _reason(label):
+    def m(cex):
+        return cex.get("kind") in ("steps_not_exact", "rb_steps_not_exact", "delta_min_not_dual",
+                                   "derived_smaller_than_source", "derived_differs_on_prefix") and label in cex.get("reasons", [])
+    return m
+
+
+MATCHERS["f2_propagated_over_nothing"] = _reason("F2")
+MATCHERS["f3_plateau_ended_curve"] = _reason("F3")
+MATCHERS["k1_prefix_yields_zero"] = _reason("K1")
+
+
+@matcher("f6_extrapolate_loosens_beyond_horizon")
+def _f6(cex):
+    return cex.get("kind") == "extrapolation_loosens" and cex.get("beyond_extrapolated_horizon") is True
+
+
+@matcher("f7_cost_extrapolate_raises_beyond_range")
+def _f7(cex):
+    return cex.get("kind") == "cost_extrapolation_raises" and cex.get("beyond_extrapolated_range") is True
+
+
+@matcher("f8_derived_from_non_subadditive_source")
+def _f8(cex):
+    return cex.get("kind") in ("derived_smaller_than_source", "derived_differs_on_prefix") and cex.get("source_subadditive") is False
+
+
 def classify(pid, cexs):
     """returns (known, new): known = list of (finding, first matching cex) (one per
     finding), new = list of counterexamples no known finding accepts."""
